@@ -104,7 +104,7 @@ class C10(Spec):
         # the client-side parser accepts, the loop must digest too — it parses the line the command printed for it once more
         from checks import cmdgen
         for w in cmdgen.WORDS:
-            forms = [w, w + " ", w + "  ", w + "  5", w + " k", w + " k ", w + " k  ", w + "  k v", w + " 5", w + " ; ", w + " k ;x"]
+            forms = [w, w + " ", w + "  ", w + "  5", w + " k", w + " k ", w + " k  ", w + "  k v", w + " 5", w + " ; ", w + " k ;x", w + " k v;;", w + " k;;;", w + " k 0 v;;"]   # (terminators at the end of the line: all of them go, at the first parse)
             for v in cmdgen.VARIANTS[w]:
                 forms.append(v.replace("{k}", "k1")); forms.append(v.replace("{k}", ""))
             for form in dict.fromkeys(forms):
